@@ -108,6 +108,13 @@ class Sim:
     def run_for(self, dt):
         return self.loop.drain(until=self.loop.time() + dt)
 
+    def gap(self, st):
+        """A scenario gap: either virtual time (`dt`) or an exact number of loop iterations (`iters`), so that the next
+        operation can land between two callbacks of one instant (a drain completing, a lock released, a task resumed)."""
+        if st.get("iters"):
+            return self.loop.step_iterations(st["iters"])
+        return self.run_for(st["dt"])
+
     def do(self, fn, *a):
         if self.loop.is_running():
             return fn(*a)
